@@ -1,9 +1,128 @@
-(* C02 - positional association: gated maximum-weight one-to-one assignment. Property theorems only. *)
-From Coq Require Import List NArith ZArith Bool.
-From Similari Require Import Model.Assign Proofs.AssignProofs.
-Import ListNotations.
+(* C02 - In positional (SORT) tracking the continuations chosen in one call form a gated one-to-one assignment of
+   maximum total weight, where leaving a detection unmatched counts as the threshold weight.
+   Property theorems only; proofs live in Proofs/AssignProofs.v (assignment) and Proofs/GateProofs.v (gate).
 
-Example c02_pad_example :
-  pad_matrix 3 2 2 [(10%N, 1%N, 5%Z); (11%N, 1%N, 6%Z); (10%N, 2%N, 4%Z)]
-  = Some ([[3; 0; 5; 4]; [0; 3; 6; 0]]%Z, [10; 11; 1; 2]%N).
-Proof. vm_compute. reflexivity. Qed.
+   Reading guide.  A stream s : pairs is what SortVoting::winners receives: (candidate id, track id, integer weight)
+   with weight = (metric * 1e6) as i64; thr is the threshold scaled the same way.  pad_matrix / decode are the model of
+   sort/voting.rs; kuhn_munkres is an ORACLE whose specification is [optimal] ("a maximum-weight assignment").
+   lastw s f t is the weight of the pair (f, t) in the stream (None: the pair was filtered out by the gate).
+   A partial matching M : pmatch maps every detection of the stream to Some track or None (new track); its value is
+   the sum of the matched weights plus thr for every unmatched detection. *)
+From Coq Require Import List NArith ZArith QArith Bool.
+From Similari Require Import Base.Num Model.Assign Proofs.AssignProofs Proofs.GateProofs.
+From SimilariGen Require Import Consts Scalar ScalarBox ScalarCost ScalarGate.
+Import ListNotations.
+Local Close Scope Q_scope.
+Local Open Scope nat_scope.
+
+(* MAIN THEOREM, for every size and every stream (thr > 0; detection ids and track ids disjoint):
+   for EVERY optimal assignment a of the padded matrix - whatever kuhn_munkres returns -
+     - decode does not panic and yields W with exactly one entry per detection of the stream, in order;
+     - no track (and no detection) occurs twice on the right-hand side: the continuations are one-to-one;
+     - an entry is the detection itself (new track) or a pair of the stream whose weight reaches thr (passes the gate);
+     - the value of W is at least the value of every partial one-to-one matching of stream pairs, and equals the
+       optimum found by exhaustive search: the choice is a maximum, never merely greedy or first-come. *)
+Theorem pad_opt_is_gated_partial :
+  forall (thr : Z) (n cols : nat) (s : pairs) (m : matrix) (idx : list N) (a : list nat),
+    (0 < thr)%Z -> ids_disj s -> pad_matrix thr n cols s = Some (m, idx) ->
+    is_assignment n (n + cols) a -> optimal m a ->
+    exists W, decode idx a = Some W /\ gated_winners thr s W /\
+              (forall M, valid_pm (lastw s) (froms s) (tos s) M -> (pm_value (lastw s) thr M <= w_value s thr W)%Z) /\
+              w_value s thr W = fst (fst (best_partial thr s)).
+Proof. exact pad_opt_lemma. Qed.
+
+(* the same through the model of SortVoting::winners, for any oracle that returns an optimal assignment of the one
+   matrix it is given *)
+Theorem sort_voting_is_gated_maximum :
+  forall (km : matrix -> list nat) (thr : Z) (n cols : nat) (s : pairs) (W : list (N * N)),
+    (0 < thr)%Z -> ids_disj s -> length (tos s) <= cols ->
+    (forall m idx, pad_matrix thr n cols s = Some (m, idx) ->
+                   is_assignment (length m) (ncols m) (km m) /\ optimal m (km m)) ->
+    sort_winners km thr n cols s = Some W ->
+    gated_winners thr s W /\
+    (forall M, valid_pm (lastw s) (froms s) (tos s) M -> (pm_value (lastw s) thr M <= w_value s thr W)%Z) /\
+    w_value s thr W = fst (fst (best_partial thr s)).
+Proof. exact sort_winners_gated. Qed.
+
+(* a pair that does not pass the gate is never continued *)
+Theorem ungated_never_continued :
+  forall thr s W f t, gated_winners thr s W -> t <> f ->
+    (lastw s f t = None \/ exists w, lastw s f t = Some w /\ (w < thr)%Z) -> ~ In (f, t) W.
+Proof. exact ungated_never_continued_lemma. Qed.
+
+(* best_partial is the maximum over all partial one-to-one matchings, is attained, and is one-to-one *)
+Theorem best_partial_optimal :
+  forall thr s M, valid_pm (lastw s) (froms s) (tos s) M ->
+    (pm_value (lastw s) thr M <= fst (fst (best_partial thr s)))%Z.
+Proof. exact best_partial_optimal_lemma. Qed.
+
+Theorem best_partial_attained :
+  forall thr s, valid_pm (lastw s) (froms s) (tos s) (snd (fst (best_partial thr s))) /\
+                pm_value (lastw s) thr (snd (fst (best_partial thr s))) = fst (fst (best_partial thr s)).
+Proof. exact best_partial_attained_lemma. Qed.
+
+Theorem best_partial_injective : forall thr s, NoDup (matched (snd (fst (best_partial thr s)))).
+Proof. exact best_partial_injective_lemma. Qed.
+
+(* the certificate checker: potentials accepted by check_dual prove that a is a maximum-weight assignment of m
+   (weak duality); this is what certifies the implementation's answers on instances of any size *)
+Theorem check_dual_sound :
+  forall m a u v, check_dual m a u v = true -> is_assignment (length m) (ncols m) a /\ optimal m a.
+Proof. exact check_dual_sound_lemma. Qed.
+
+(* declaring more tracks than the stream mentions (all-zero columns) changes nothing: the index is the same and every
+   optimal assignment of the wider matrix is an optimal assignment of the narrower one *)
+Theorem extra_zero_columns_irrelevant :
+  forall thr n c c' s m m' idx idx' a,
+    (0 < thr)%Z -> ids_disj s -> c <= c' ->
+    pad_matrix thr n c s = Some (m, idx) -> pad_matrix thr n c' s = Some (m', idx') ->
+    idx' = idx /\ (is_assignment n (n + c') a -> optimal m' a -> is_assignment n (n + c) a /\ optimal m a).
+Proof. exact extra_zero_columns_lemma. Qed.
+
+(* THE GATE (translated SortMetric::metric, gen/ScalarGate.v; proofs by the gate builder in Proofs/GateProofs.v).
+   IoU mode: a weight is reported only if the pair is not too far, has an IoU, and IoU * max(confidence, min_confidence)
+   reaches the threshold. *)
+Theorem c02_gate_iou :
+  forall (mc thr : Q) cand trk far (d : Q) (iou : option Q) (w : Q) x,
+    sort_metric Qops mc (PositionalMetricType_IoU Qops thr) cand trk far d iou = Some (Some w, x) ->
+    far = false /\ x = None /\ exists i, iou = Some i /\ (w == i * sort_conf mc cand)%Q /\ (thr <= w)%Q.
+Proof. exact gate_iou. Qed.
+
+(* Mahalanobis mode: the weight is positive exactly inside the 95% chi-square gate and 0 outside (and no weight at all
+   beyond bounding-circle reach); with the threshold 1.0 an out-of-gate pair has integer weight 0 < thr and is never
+   continued (ungated_never_continued). *)
+Theorem c02_gate_maha :
+  forall (mc : Q) cand trk far (d : Q) (iou : option Q) (w : Q) x,
+    sort_metric Qops mc (PositionalMetricType_Mahalanobis Qops) cand trk far d iou = Some (Some w, x) ->
+    far = false /\ x = None /\ (w == box_calculate_cost Qops d true / sort_conf mc cand)%Q /\
+    ((0 < mc)%Q -> ((0 < w)%Q <-> (d <= CostProofs.box_gate)%Q) /\ ((CostProofs.box_gate < d)%Q -> (w == 0)%Q)).
+Proof. exact gate_maha. Qed.
+
+(* NON-VACUITY and "never merely greedy": detection 10 overlaps tracks 1 (60) and 2 (50), detection 11 only track 1 (55),
+   threshold 30.  First-come gives 10 -> 1 and leaves 11 alone (60 + 30 = 90); the optimum is 10 -> 2, 11 -> 1 (105).
+   The optimal assignment is certified by check_dual, the greedy one is an assignment that is NOT optimal. *)
+Definition ex_s : pairs := [(10%N, 1%N, 60%Z); (10%N, 2%N, 50%Z); (11%N, 1%N, 55%Z)].
+
+Example greedy_not_optimal_witness :
+  exists m idx,
+    pad_matrix 30%Z 2 2 ex_s = Some (m, idx) /\ ids_disj ex_s /\
+    optimal m [3; 2] /\ decode idx [3; 2] = Some [(10%N, 2%N); (11%N, 1%N)] /\
+    is_assignment 2 4 [2; 1] /\ decode idx [2; 1] = Some [(10%N, 1%N); (11%N, 11%N)] /\
+    (aweight m [2%nat; 1%nat] < aweight m [3%nat; 2%nat])%Z /\ ~ optimal m [2; 1] /\
+    fst (fst (best_partial 30%Z ex_s)) = 105%Z.
+Proof.
+  eexists. eexists. split; [vm_compute; reflexivity|].
+  assert (is_assignment 2 4 [3; 2] /\ optimal [[30; 0; 60; 50]; [0; 30; 55; 0]]%Z [3; 2]) as [Ha Hopt].
+  { apply (check_dual_sound_lemma [[30; 0; 60; 50]; [0; 30; 55; 0]]%Z [3; 2] [35; 30]%Z [0; 0; 25; 15]%Z). vm_compute. reflexivity. }
+  split.
+  { intros p p' Hp Hp'. cbn in Hp, Hp'.
+    destruct Hp as [Hp|[Hp|[Hp|[]]]], Hp' as [Hp'|[Hp'|[Hp'|[]]]]; subst; vm_compute; discriminate. }
+  split; [exact Hopt|]. split; [vm_compute; reflexivity|].
+  assert (is_assignment 2 4 [2; 1]) as Hg.
+  { unfold is_assignment. split; [reflexivity|]. split.
+    - constructor; [intros [H|[]]; discriminate | constructor; [intros [] | constructor]].
+    - intros j [H|[H|[]]]; subst; repeat constructor. }
+  split; [exact Hg|]. split; [vm_compute; reflexivity|]. split; [vm_compute; reflexivity|].
+  split; [|vm_compute; reflexivity].
+  intro H. specialize (H [3; 2] Ha). vm_compute in H. apply H. reflexivity.
+Qed.
